@@ -11,6 +11,7 @@ import (
 //verif:harness VerifC07_Limit quick.maxpaths=20000 thorough.maxpaths=100000 timeout=2400 steps=200000000
 //verif:harness VerifC07_NoLayout quick.maxpaths=20000 thorough.maxpaths=100000 timeout=1800
 //verif:harness VerifC07_FilesChange quick.maxpaths=20000 thorough.maxpaths=100000 timeout=1800
+//verif:harness VerifC07_Spelling quick.maxpaths=20000 thorough.maxpaths=100000 timeout=1800 steps=40000000
 
 // layout files of the universe; every layout prints a marker, the previous
 // result (content), a page front-matter key (pk) and a Fill key (fk).
@@ -369,4 +370,38 @@ func zzMinInt(a, b int) int {
 		return a
 	}
 	return b
+}
+
+// VerifC07_Spelling: the chain page -> layouts/a -> layouts/base is applied
+// however the front-matter blocks of the page and of the layout are spelled:
+// line endings, blanks after the closing line, quoting of the layout name.
+func VerifC07_Spelling() {
+	eols := []string{"\n", "\r\n"}
+	closings := []string{"---", "--- ", "---\t"}
+	names := []string{"a", `"a"`, `'a'`}
+	peol := eols[zzChoice("pageEol", 2)]
+	pclose := closings[zzChoice("pageClosing", 3)]
+	leol := eols[zzChoice("layoutEol", 2)]
+	lclose := closings[zzChoice("layoutClosing", 3)]
+	name := names[zzChoice("name", 3)]
+	files := map[string]string{
+		"p.vuego":            "---" + peol + "pk: PV" + peol + "layout: " + name + peol + pclose + peol + "<p>PG {{ pk }}</p>",
+		"layouts/a.vuego":    "---" + leol + "layout: base" + leol + "ak: AV" + leol + lclose + leol + `<div class="a"><span v-html="content"></span><u>{{ pk }}</u></div>`,
+		"layouts/base.vuego": `<div class="base"><span v-html="content"></span><u>{{ pk }}</u></div>`,
+	}
+	var out string
+	var err error
+	if zzBool("viaLoad") {
+		var sb strings.Builder
+		err = NewFS(newZZFS(files)).Load("p.vuego").Render(contextBackground(), &sb)
+		out = sb.String()
+	} else {
+		out, err = zzRenderFile(newZZFS(files), "p.vuego", map[string]any{})
+	}
+	zzNote("page", files["p.vuego"])
+	zzNote("layout", files["layouts/a.vuego"])
+	zzNote("out", out)
+	zzAssert(err == nil, "C07.spelling.spurious-error")
+	want := `<div class="base"><span><div class="a"><span><p>PG PV</p></span><u>PV</u></div></span><u>PV</u></div>`
+	zzAssert(zzSquash(out) == zzSquash(want), "C07.spelling.chain-applied")
 }
